@@ -79,8 +79,8 @@ CLAIMS.update({
             "provenance, PAR on the parallel callables and the pool, structure of the mesh filter (both per-cell loops cover all vertices), "
             "base64 length of appended blocks = 4*ceil(n/3) (proof over residues), Cartesian grid: node positions and VTK cell "
             "connectivity as closed forms of the loop indices; sphere grid: bilinear block patch (partition of unity, corners, edges) and "
-            "projection R*p/|p|; chunk grid: (lon, lat, r) lattice, conversion to Cartesian coordinates and connectivity. The annulus generator, the "
-            "uncompressed numbering and the merging of sphere blocks are decided only for their depth field",
+            "projection R*p/|p|; chunk grid: (lon, lat, r) lattice, conversion to Cartesian coordinates and connectivity; annulus grid: node circles and "
+            "quads with the wrap-around column. The uncompressed numbering and the merging of sphere blocks are decided only for their depth field",
             "§3.2, §3.11, §4 C18"),
 })
 
